@@ -46,6 +46,8 @@ def _src(sig):
             params.append(f"{n}={NAMES[i-1]}")
         elif d == "outer":
             params.append(f"{n}=outer")
+        elif d == "self":
+            params.append(f"{n}={n}")   # a default naming its own parameter: the parameter shadows, stays undefined
     body = ["'m'"] + NAMES[: sig["np"]]
     body.append("varargs" if sig["v"] else "'-'")
     body.append("kwargs" if sig["k"] else "'-'")
@@ -85,7 +87,7 @@ def spec(sig, pos, kw, outer):
             bound[p] = rest.pop(p)
         else:
             d = sig["defaults"][i]
-            if d == "none":
+            if d in ("none", "self"):
                 bound[p] = ("<undefined>",)
             elif d == "const":
                 bound[p] = 700 + i
@@ -114,9 +116,12 @@ def _mk(npos, kwp, vals):
     pos = [vals[i] for i in range(n)]
     kw = {}
     names = _kwnames()
+    none_idx = P.get("none_idx", -1)
     for i, nm in enumerate(names):
         if kwp[i]:
             kw[nm] = vals[5 + i] if nm != "caller" else _caller
+            if nm != "caller" and i == none_idx:
+                kw[nm] = None      # None is an ordinary value: a keyword passing it fills the parameter
     return pos, kw
 
 
@@ -231,6 +236,7 @@ def _sigs():
     shapes = [
         (0, []), (1, ["none"]), (1, ["const"]), (1, ["outer"]),
         (2, ["none", "none"]), (2, ["none", "const"]), (2, ["none", "prev"]), (2, ["const", "prev"]), (2, ["outer", "const"]),
+        (1, ["self"]), (2, ["none", "self"]), (2, ["self", "prev"]),
         (3, ["none", "none", "none"]), (3, ["none", "none", "const"]), (3, ["none", "const", "prev"]), (3, ["const", "prev", "outer"]),
     ]
     for np_, d in shapes:
@@ -260,11 +266,11 @@ def conditions(tier, seed):
         for via in vias:
             for asyncm in ((False, True) if (thorough or (idx + seed) % 5 == 0) else (False,)):
                 out.append(Cond(f"bind[{name},{via}{',async' if asyncm else ''}]", "bind_ok", mode="A",
-                                param={"sig": sig, "via": via, "asyncm": asyncm}, timeout=to,
+                                param={"sig": sig, "via": via, "asyncm": asyncm, "none_idx": (idx % 4) - 1}, timeout=to,
                                 witnesses=[[2, [False] * (sig["np"] + 2), list(range(10))],
                                            [0, [True] * (sig["np"] + 1) + [False], list(range(10, 20))],
                                            [5, [False] * (sig["np"]) + [True, True], list(range(10))]],
-                                bounds="0..5 positional args, any subset of keywords {params, zz, caller}, any int values; call via " + via))
+                                bounds="0..5 positional args, any subset of keywords {params, zz, caller}, any int values (one keyword, rotating with the signature, carries None instead); call via " + via))
     chunk = 4
     for lo in range(0, len(SIGS), chunk):
       if thorough or (lo // chunk + seed) % 2 == 0:
